@@ -13,7 +13,7 @@ def main():
     a = ap.parse_args()
     seed = int(os.environ.get("VERIF_SEED", "20260927"))
     # a runner that gives no new answer for this long is killed and the pending request reported (non-termination)
-    os.environ.setdefault("VERIF_STALL", "90" if a.tier == "quick" else "900")
+    os.environ.setdefault("VERIF_STALL", "300" if a.tier == "quick" else "1800")
     mod = importlib.import_module(a.prop.lower())
     if a.replay:
         sys.exit(replay(mod, a.prop, a.replay))
